@@ -72,7 +72,17 @@ func (c *Conn) maybeSend(now time.Time) (next time.Time) {
 				extra:     c.retryToken,
 			}
 			c.w.startProtectedLongHeaderPacket(pnumMaxAcked, p)
-			c.appendFrames(now, initialSpace, pnum, limit)
+			initialLimit := limit
+			if c.side == serverSide && c.loss.maxSendSize() < paddedInitialDatagramSize {
+				// A datagram carrying an ack-eliciting Initial packet must be padded
+				// to 1200 bytes, and the anti-amplification limit does not currently
+				// permit sending that much. Send nothing but ACKs in the Initial space
+				// until the client has sent us more data.
+				// https://www.rfc-editor.org/rfc/rfc9000#section-8.1-3
+				// https://www.rfc-editor.org/rfc/rfc9000#section-14.1-1
+				initialLimit = ccLimited
+			}
+			c.appendFrames(now, initialSpace, pnum, initialLimit)
 			if logPackets {
 				logSentPacket(c, packetTypeInitial, pnum, p.srcConnID, p.dstConnID, c.w.payload())
 			}
